@@ -72,6 +72,9 @@ def run(tier: str) -> int:
                           # hidden directories with source files next to each other: pruned whatever the listing order
                           ("hid/.alpha/tool.py", "def tool(a):\n    return a\n"), ("hid/.beta/helper.py", "def helper(a):\n    return a\n"), ("hid/src/x.py", "def x(a):\n    return a\n"),
                           ("hid/.gamma/.delta/deep.js", "function deep(a) {\n  return a;\n}\n"), ("hid/.m.py", "def hidden_file():\n    pass\n"), ("hid/.n.py", "def hidden_file2():\n    pass\n"),
+                          # an order-sensitive exclusion list at the root of the tree (last match wins): its reading must not depend on the hash seed
+                          (".gitignore", "gen/*\n!gen/handwritten.py\nlegacy/\n!legacy/shape.c\n*.ts\n!web/same.ts\n"),
+                          ("gen/handwritten.py", "def written_by_hand(a):\n    return a\n"), ("gen/generated.py", "def generated(a):\n    return a\n"),
                           ("enc2/a_legacy.js", "// \xe9\nfunction old(a) {\n  return a;\n}\n".encode("latin-1")),
                           ("enc2/b_modern.js", "function neu(a) {\n  return '\u00e9\u20ac'; }\n".encode("utf-8"))):
             (gen / rel).parent.mkdir(parents=True, exist_ok=True)
